@@ -31,6 +31,7 @@ class PersistentWorker(Worker):
         # and its cleanup code still needs them
         self._counter = 0
         self._stop = False
+        self._results_ended = False # parent side: the end-of-results message has been seen by next_result
         super().__init__(target, **kwargs)
         self._closed = False
 
@@ -54,6 +55,11 @@ class PersistentWorker(Worker):
         raise NotImplementedError()
 
     def next_result(self, block=True, timeout=None):
+        if self._results_ended:
+            # nothing follows the end-of-results message; the worker can still be winding down (is_alive() is True),
+            # waiting for more would block forever
+            raise queue.Empty
+
         if not self.is_alive():
             ret = self.results_endpoint.get_nowait()
         else:
@@ -61,6 +67,7 @@ class PersistentWorker(Worker):
 
         unused_counter, flag, value, unused_wid = ret
         if not flag:
+            self._results_ended = True
             raise queue.Empty
         return value
 
